@@ -868,12 +868,25 @@ pub struct ExploreCfg {
 pub fn explore(build: &dyn Fn(&Sched) -> Scenario, cfg: &ExploreCfg, on_exec: &mut dyn FnMut(&Exec, &[usize])) -> Result<ExploreStats, Fail> {
     let mut stats = ExploreStats { executions: 0, transitions: 0, states: HashSet::new(), max_points: 0, horizon_hits: 0, capped: false };
     // determinism obligation: the root execution twice, identical fingerprints
+    let t_root = Instant::now();
     let root = run_one(build, &[], cfg.horizon, false)?;
+    if t_root.elapsed() > Duration::from_secs(4) && root.violation.is_some() {
+        // the default execution already ran into the watchdog verdict: report it and stop (each further
+        // execution would cost the watchdog time again)
+        stats.executions = 1;
+        stats.transitions = root.points.len() as u64;
+        stats.capped = true;
+        if cfg.shard == 0 {
+            on_exec(&root, &[]);
+        }
+        return Ok(stats);
+    }
     let root2 = run_one(build, &[], cfg.horizon, false)?;
     if root.fingerprint() != root2.fingerprint() {
         return Err(Fail::Divergence("the default execution is not deterministic (two runs differ)".into()));
     }
     let mut visited: HashSet<u64> = HashSet::new();
+    let mut slow = 0;
     let mut top_idx = 0u64;
     let mut stack: Vec<(Vec<usize>, Option<Exec>)> = vec![(vec![], Some(root))];
     while let Some((prefix, pre)) = stack.pop() {
@@ -881,10 +894,16 @@ pub fn explore(build: &dyn Fn(&Sched) -> Scenario, cfg: &ExploreCfg, on_exec: &m
             stats.capped = true;
             break;
         }
+        let t_exec = Instant::now();
         let x = match pre {
             Some(x) => x,
             None => run_one(build, &prefix, cfg.horizon, false)?,
         };
+        if t_exec.elapsed() > Duration::from_secs(4) {
+            // an execution that ran into the watchdog (a blocked thread is a verdict, see World::on_watchdog): a few
+            // of them establish the verdict, exploring thousands more at 6 s each would only exhaust the time budget
+            slow += 1;
+        }
         let is_root = prefix.is_empty();
         if !is_root || cfg.shard == 0 {
             stats.executions += 1;
@@ -892,7 +911,7 @@ pub fn explore(build: &dyn Fn(&Sched) -> Scenario, cfg: &ExploreCfg, on_exec: &m
             on_exec(&x, &prefix);
         }
         stats.max_points = stats.max_points.max(x.points.len());
-        if x.poisoned {
+        if x.poisoned || slow >= 3 {
             stats.capped = true;
             break;
         }
